@@ -294,8 +294,10 @@ def directed(sid0, tol_us, xcfgs, grp0=1):
         add(exp, "shutdown-in-flight", [item(kind="hold", stop="shutdown")])
         # a collector that never answers: the small explicit export timeout ends the whole call
         add(exp, "slow-first-attempt-exceeds-limit", [item(code=14, slow_us=300_000), item(code=0)], maxel_us=200_000)
-        add(exp, "hung-call-timeout", [item(kind="hung")], cto_us=400_000, tick_us=200_000)
-        add(exp, "retry-then-hung", [item(code=14), item(kind="hung")], cto_us=400_000, tick_us=200_000)
+        # (a retry that slips out right at the deadline is not answered either)
+        add(exp, "hung-call-timeout", [item(kind="hung"), item(kind="hung"), item(kind="hung")], cto_us=400_000, tick_us=200_000)
+        add(exp, "retry-then-hung", [item(code=14), item(kind="hung"), item(kind="hung"), item(kind="hung")], cto_us=400_000,
+            tick_us=200_000)
         # the export timeout also ends a long backoff wait
         add(exp, "timeout-in-long-wait", [item(code=14), item(code=0)], cto_us=400_000, tick_us=200_000, initial_us=4_000_000,
             maxint_us=4_000_000)
